@@ -1,5 +1,5 @@
 (* Codec/Props_codec.v — property theorems of the codec area (statement + `exact lemma` only). *)
-From FlacCodec Require Import Parser_proofs Wf Spec Roundtrip_sub Roundtrip_hdr Roundtrip_frame Agree_frame Totality Progress Stream EncChoice Damage Prefix Interrupted Inverse Inverse_frame StreamRd StreamRd_proofs Lengths ParseWf.
+From FlacCodec Require Import Parser_proofs Wf Spec Roundtrip_sub Roundtrip_hdr Roundtrip_frame Agree_frame Totality Progress Stream EncChoice Damage Prefix Interrupted Inverse Inverse_frame StreamRd StreamRd_proofs Lengths ParseWf Admissible.
 From FlacBase Require Import Crc.
 Open Scope N_scope.
 
@@ -100,6 +100,28 @@ Proof.
   repeat (apply andb_prop in H; destruct H as [H ?]).
   eapply wf_subframes_lengths; eauto.
 Qed.
+
+(* C01, existence half: every PCM block that fits the depth has an admissible frame standing for it
+   (all-VERBATIM), so encoding can always succeed; by C03 it decodes back to the block *)
+Theorem C01_every_block_has_an_admissible_frame : forall si h chans,
+  wf_header si h = true ->
+  match si with Some i => is_ok (header_checks i h) | None => true end = true ->
+  h_assign h <? 8 = true -> 1 <= h_bps h -> h_bps h <= 32 ->
+  length chans = N.to_nat (h_assign h + 1) ->
+  Forall (fun c => length c = N.to_nat (h_bs h) /\ forallb (fits (h_bps h)) c = true) chans ->
+  wf_frame si (verbatim_frame h chans) = true /\ spec_frame (verbatim_frame h chans) = true /\
+  sem_frame (verbatim_frame h chans) = chans.
+Proof. exact verbatim_frame_admissible. Qed.
+
+(* C01/C03 at stream level: a stream made of valid frames decodes to all of their PCM, in order, and
+   ends cleanly (total unknown, or known and exactly reached) *)
+Theorem C03_complete_stream : forall si fs allb fuel cur acc,
+  Forall (frame_ok si) fs -> frames_bytes fs = Some allb ->
+  (si_total si = 0 \/ cur + total_samples fs = si_total si) ->
+  (length allb < fuel)%nat ->
+  dec_frames fuel si cur allb acc =
+    (rev acc ++ map (fun f => interleave_frame (sem_frame f)) fs, EndEof).
+Proof. exact complete_stream. Qed.
 
 (* C04: no byte string makes the frame decoder panic ... *)
 Theorem C04_frame_total : forall si chk bytes,
